@@ -241,7 +241,10 @@ pub fn dyadic(v: f64) -> Option<(i64, u32)> {
         e += 1;
     }
     if e >= 0 {
-        if e > 8 || m >= (1u64 << 53) {
+        // the value m * 2^e must fit the i64 numerator printed by `q` (it used to be cut at e <= 8,
+        // which made exactly representable results such as 1024 = 2^10 "not printable" and produced
+        // a false model/implementation disagreement in the C13 thorough tier)
+        if e > 62 || m >= (1u64 << 53) || ((m as u128) << e) >= (1u128 << 62) {
             return None;
         }
         Some((sign * ((m << e) as i64), 0))
